@@ -215,6 +215,15 @@ def _pair(ctx, c1, runs1, c2, runs2, kind):
             bad('library-lookup', 'lib[%r] -> %r, in=%r, model_equal=%r' % (key, got, key in lib, model_eq))
     if lib[A] != {'payload': t1} or lib[A.name] != {'payload': t1} or len(lib) != 1 or list(lib) != [A]:
         bad('library-lookup', 'library does not find its own key %r' % A.name)
+    # what a lookup of an ABSENT group returns belongs to the caller: writing into it does not create an entry for any other group
+    ab1, ab2 = Group(None, c1 + 'zz', list(p1)), Group(None, c2 + 'yy', list(p2))
+    e1 = lib[ab1]
+    try:
+        e1['written-by-caller'] = 1
+    except TypeError:
+        pass
+    if lib[ab2] != {} or lib[ab2.name] != {} or (ab2 in lib) or (ab1 in lib) or len(lib) != 1:
+        bad('absent-groups-share-one-entry', 'after writing into the mapping returned for the absent %r: lib[%r] -> %r, %d entries' % (ab1.name, ab2.name, lib[ab2], len(lib)))
     # the library grows (Update from another library) AFTER it has been asked by string: the new entry is found by its group, by
     # its canonical name and by any other spelling's group alike
     newc = c2 + 'q'
